@@ -180,6 +180,43 @@ pub fn cmap(o: &mut Obs, env: &Env, cmap: &Cmap) {
 
 // ------------------------------------------------------------------ loca / glyf
 
+/// TrueType bytecode decoding (the iterator keeps yielding the same error once
+/// it hits one, so it is consumed up to the first error).
+pub fn bytecode(o: &mut Obs, code: &[u8]) {
+    use read_fonts::tables::glyf::bytecode::{decode_all, Decoder};
+    let n = code.len();
+    for pc in [0usize, 1, n.wrapping_sub(1), n, n + 1, usize::MAX] {
+        o.helper("bytecode::decode_all");
+        let mut k = 0u32;
+        for ins in decode_all(code, pc).take(70_000) {
+            match ins {
+                Ok(ins) => {
+                    o.d.str(ins.opcode.name());
+                    o.d.u64(ins.pc as u64);
+                    o.d.u64(ins.inline_operands.len() as u64);
+                    o.d.bytes(&[ins.inline_operands.is_empty() as u8, ins.opcode.is_push() as u8]);
+                    for v in ins.inline_operands.values().take(256) {
+                        o.d.i64(v as i64);
+                    }
+                    if k < 8 {
+                        o.d.str(&ins.to_string());
+                    }
+                }
+                Err(_) => {
+                    o.d.bytes(&[0xEE]);
+                    break;
+                }
+            }
+            k += 1;
+        }
+        o.d.u32(k);
+        if pc > n {
+            let mut d = Decoder::new(code, pc);
+            o.d.bytes(&[d.decode().is_none() as u8]);
+        }
+    }
+}
+
 pub fn glyph_helpers<'a>(o: &mut Obs, env: &Env, glyph: &Glyph<'a>, walk_generic: bool) {
     if walk_generic {
         walk_table(o, glyph as &dyn SomeTable<'a>, 2);
@@ -244,6 +281,7 @@ pub fn glyph_helpers<'a>(o: &mut Obs, env: &Env, glyph: &Glyph<'a>, walk_generic
             o.helper("SimpleGlyph::instructions");
             o.d.u64(g.instructions().len() as u64);
             o.d.bytes(g.instructions());
+            bytecode(o, g.instructions());
             o.d.u64(g.glyph_data().len() as u64);
         }
         Glyph::Composite(g) => {
@@ -270,6 +308,9 @@ pub fn glyph_helpers<'a>(o: &mut Obs, env: &Env, glyph: &Glyph<'a>, walk_generic
             o.d.dbg(&ins.map(|i| i.len()));
             o.helper("CompositeGlyph::instructions");
             o.d.dbg(&g.instructions().map(|i| i.len()));
+            if let Some(code) = g.instructions() {
+                bytecode(o, code);
+            }
         }
     }
     o.d.dbg(&(glyph.number_of_contours(), glyph.x_min(), glyph.y_min(), glyph.x_max(), glyph.y_max()));
@@ -527,6 +568,14 @@ pub fn metrics(o: &mut Obs, env: &Env, want: &dyn Fn(&[&[u8; 4]]) -> bool) {
                     }
                     Err(e) => o.err(&e),
                 }
+            }
+        }
+    }
+    for t in [b"fpgm", b"prep"] {
+        if want(&[t]) {
+            if let Some(d) = font.data_for_tag(Tag::new(t)) {
+                let b = d.as_bytes();
+                bytecode(o, &b[..b.len().min(if env.full { usize::MAX } else { 4096 })]);
             }
         }
     }
